@@ -395,6 +395,53 @@ func syncProto(repo string) (string, string, error) {
 	}
 	h2PerDial := clonesPerCall(fNew, "t")
 
+	// structural facts 9-10: h2c
+	//   h2c_installs_plain_dialtls : Transport.EnableH2C assigns DialTLSContext (the pinned code installed a plain
+	//                                net.Dial there, which every https connection of the client then used)
+	//   h2_plain_dial_for_http     : http2 dialClientConn takes a `plain` flag and dials without the TLS hooks when
+	//                                it is set (first statement mentioning it precedes the dialTLS call)
+	fH2C := funcDecl(tr, "Transport", "EnableH2C")
+	if fH2C == nil {
+		return "", "", fmt.Errorf("transport.go: EnableH2C not found")
+	}
+	h2cInstalls := false
+	ast.Inspect(fH2C, func(x ast.Node) bool {
+		if as, ok := x.(*ast.AssignStmt); ok {
+			for _, l := range as.Lhs {
+				if se, ok := l.(*ast.SelectorExpr); ok && se.Sel.Name == "DialTLSContext" {
+					h2cInstalls = true
+				}
+			}
+		}
+		return true
+	})
+	fDCC := funcDecl(h2tr, "Transport", "dialClientConn")
+	if fDCC == nil {
+		return "", "", fmt.Errorf("internal/http2/transport.go: dialClientConn not found")
+	}
+	plainParam := false
+	for _, f := range fDCC.Type.Params.List {
+		for _, n := range f.Names {
+			if n.Name == "plain" {
+				plainParam = true
+			}
+		}
+	}
+	plainFirst := false
+	if plainParam {
+		for _, st := range fDCC.Body.List {
+			if is, ok := st.(*ast.IfStmt); ok {
+				if id, ok := is.Cond.(*ast.Ident); ok && id.Name == "plain" && !containsCall(is.Body, "t", "dialTLS") {
+					plainFirst = true
+					break
+				}
+			}
+			if containsCall(st, "t", "dialTLS") {
+				break
+			}
+		}
+	}
+
 	var sb strings.Builder
 	sb.WriteString("(* GENERATED by harness/c12 gosync from transport.go, client.go, internal/http2/http2.go,\n   internal/http3/server.go, internal/http3/roundtrip.go - do not edit *)\n")
 	sb.WriteString("From ReqV Require Import Lib.Bytes.\nImport ListNotations.\n\n")
@@ -415,6 +462,8 @@ func syncProto(repo string) (string, string, error) {
 	fmt.Fprintf(&sb, "(* Transport.Clone: Options: t.Options.Clone() and the clone's http2 transport gets &tt.Options *)\nDefinition clone_own_options : bool := %s.\n", hk.CoqBool(cloneOwn && cloneOpts))
 	fmt.Fprintf(&sb, "(* EnableHTTP3: http3.RoundTripper{Options: &t.Options} *)\nDefinition t3_shares_options : bool := %s.\n", hk.CoqBool(t3Shares))
 	fmt.Fprintf(&sb, "(* http3 dial / http2 newTLSConfig derive the tls.Config from the client's on every call *)\nDefinition h3_dial_config_per_dial : bool := %s.\nDefinition h2_config_per_dial : bool := %s.\n", hk.CoqBool(h3PerDial), hk.CoqBool(h2PerDial))
+	fmt.Fprintf(&sb, "(* Transport.EnableH2C assigns DialTLSContext *)\nDefinition h2c_installs_plain_dialtls : bool := %s.\n", hk.CoqBool(h2cInstalls))
+	fmt.Fprintf(&sb, "(* http2 dialClientConn dials http:// requests (h2c) without the TLS hooks *)\nDefinition h2_plain_dial_for_http : bool := %s.\n", hk.CoqBool(plainFirst))
 	return "ProtoTables.v", sb.String(), nil
 }
 
